@@ -118,11 +118,13 @@ RetR(fail, lx) == [fail |-> fail, lx |-> lx]
 Plus(a, b) == IF a = "" THEN b ELSE IF b = "" THEN a ELSE a \o "+" \o b
 
 \* judge request i of a read call; returns clause ("" = ok)
-JudgeRead(lx, it, tg, anyInvalid, connsize) ==
+JudgeRead(lx, it, tg, anyInvalid, connsize, alone) ==
     LET e == ExpectRead(lx, it)
         big == e.len + 64 >= connsize
         fsv == IF e.cls = "valid" THEN SvcFor(lx, e.key, e.off) ELSE <<>>
-        allFailed == Len(fsv) > 0 /\ <<e.key, e.off>> \notin lx.okslices
+        \* an injected error on any service of this request fails the request; when several requests of the call address
+        \* the same slice the attribution is ambiguous and nothing is demanded
+        allFailed == Len(fsv) > 0 /\ (alone \/ <<e.key, e.off>> \notin lx.okslices)
         someFailed == Len(fsv) > 0
     IN
     IF e.cls = "unspec" THEN ""
@@ -150,7 +152,9 @@ ReadRet(lx, call, ev, connsize) ==
     ELSE IF Len(tgs) # n THEN RetR("C03:count", lx)
     ELSE IF ev.faulted = 1 THEN RetR("", lx)
     ELSE LET anyInv == n <= 400 /\ \E i \in 1..n : ExpectRead(lx, items[i]).cls = "invalid"
-             cs == [i \in 1..n |-> JudgeRead(lx, items[i], tgs[i], anyInv, connsize)]
+             exps == IF Len(lx.svclog) = 0 THEN <<>> ELSE [i \in 1..n |-> ExpectRead(lx, items[i])]
+             alone(i) == Len(lx.svclog) = 0 \/ Cardinality({j \in 1..n : exps[j].key = exps[i].key}) = 1
+             cs == [i \in 1..n |-> JudgeRead(lx, items[i], tgs[i], anyInv, connsize, alone(i))]
          IN RetR(FirstBad(cs), lx)
 
 \* expected memory: the pre-call image patched, in request order, by the effects of the requests reported truthy
@@ -160,7 +164,7 @@ ApplyTruthy(lx, items, tgs, i) ==
     ELSE LET w == ExpectWrite(lx, items[i]) IN
          ApplyTruthy(IF tgs[i].truthy = 1 /\ w.cls = "valid" THEN ApplyW(lx, w) ELSE lx, items, tgs, i + 1)
 
-JudgeWrite(lx, it, tg, anyInvalid, connsize) ==
+JudgeWrite(lx, it, tg, anyInvalid, connsize, alone) ==
     LET w == ExpectWrite(lx, it)
         failedHere == {k \in 1..Len(lx.svclog) : lx.svclog[k].key = w.key}
         okHere == {sl \in lx.okslices : sl[1] = w.key}
@@ -169,7 +173,7 @@ JudgeWrite(lx, it, tg, anyInvalid, connsize) ==
     ELSE IF w.cls = "invalid" THEN
         (IF tg.truthy = 1 THEN "C03:invalid-truthy"
          ELSE IF ~IsS(tg.error) \/ Len(tg.error.s) = 0 THEN "C03:empty-error" ELSE "")
-    ELSE IF failedHere # {} /\ okHere = {} THEN
+    ELSE IF failedHere # {} /\ (alone \/ okHere = {}) THEN
         (IF tg.truthy = 1 THEN "C13:success-on-error"
          ELSE IF ~IsS(tg.error) \/ Len(tg.error.s) = 0 THEN "C13:empty-error"
          ELSE IF ~NamesStatus(lx, tg.error, lx.svclog[Max(failedHere)].status) THEN "C13:status-not-named" ELSE "")
@@ -201,13 +205,14 @@ WriteRet(lx, call, ev, connsize) ==
     ELSE IF ev.faulted = 1 THEN RetR("", lx)
     ELSE LET pre == [lx EXCEPT !.mem = lx.pre]
              anyInv == \E i \in 1..n : ExpectWrite(pre, items[i]).cls = "invalid"
-             cs == [i \in 1..n |-> JudgeWrite(pre, items[i], tgs[i], anyInv, connsize)]
+             keys == [i \in 1..n |-> ExpectWrite(pre, items[i]).key]
+             cs == [i \in 1..n |-> JudgeWrite(pre, items[i], tgs[i], anyInv, connsize, Cardinality({j \in 1..n : keys[j] = keys[i]}) = 1)]
              c1 == FirstBad(cs)
              anyUnspec == \E i \in 1..n : ExpectWrite(pre, items[i]).cls = "unspec"
              expected == ApplyTruthy(pre, items, tgs, 1)
          IN IF c1 # "" THEN RetR(c1, lx)
             ELSE IF anyUnspec THEN RetR("", lx)
-            ELSE IF \E x \in 1..Len(lx.xfer) : lx.xfer[x].svc = 83 THEN RetR("C04:write-tiling", lx)
+            ELSE IF \E x \in 1..Len(lx.xfer) : lx.xfer[x].svc = 83 /\ lx.xfer[x].next >= 0 THEN RetR("C04:write-tiling", lx)
             ELSE IF expected.mem # lx.mem THEN
                  (IF \E k \in 1..Len(lx.mem) : expected.mem[k].b # lx.mem[k].b
                         /\ \A i \in 1..n : ExpectWrite(pre, items[i]).key # lx.mem[k].key THEN RetR("C02:outside", lx) ELSE RetR("C02:effect", lx))
